@@ -64,13 +64,18 @@ def modelid(x):
 
 
 class WorldAdapter:
-    def __init__(self, desper, K, via=None):
+    def __init__(self, desper, K, via=None, controllers=False):
+        """via: list of access modes to rotate over behaviours: 'world' (plain World calls), 'ctrl' (Controller methods),
+        'func' (module-level shorthands), 'ref' (ComponentReference / ProcessorReference descriptors).
+        controllers: component classes derive from desper.Controller (C19: a Controller knows its entity and world)."""
+        self.modes = list(via or ['world'])
+        self.controllers = controllers
+        self.counter = 0
         self.desper = desper
         self.K = K
         self.sub = sub_of(K['Types'], K['Bases'])
         self.psub = sub_of(K['PTypes'], K['PBases']) if K['PTypes'] else {}
         self.all_ids = sorted(set(K['Ids']) | set(range(1, K['MaxAuto'] + 1)))
-        self.via = via
 
     # ------------------------------------------------------------------------------------------
     def reset(self, init):
@@ -79,9 +84,14 @@ class WorldAdapter:
         env.log = []
         env.fault = None
         env.w = desper.World()
+        self.counter += 1
+        self.mode = self.modes[self.counter % len(self.modes)]
+        controllers = self.controllers
 
         def lifecycle(cb):
             def m(self, entity, world):
+                if controllers and cb == 'on_add':
+                    desper.Controller.on_add(self, entity, world)
                 env.log.append((cb, self.name, modelid(entity)) if world is env.w else (cb, self.name, modelid(entity), 'WRONGWORLD'))
                 if env.fault == (cb, self.name):
                     env.fault = None
@@ -94,15 +104,18 @@ class WorldAdapter:
         base_ns = {'on_add': lifecycle('on_add'), 'on_remove': lifecycle('on_remove'), 'probe': probe}
         env.types = {}
         for t in topo(K['Types'], K['Bases']):
-            bs = tuple(env.types[b] for b in sorted(K['Bases'][t])) or (object,)
-            env.types[t] = type(t, bs, dict(base_ns) if bs == (object,) else {})
+            root = (desper.Controller,) if controllers else (object,)
+            bs = tuple(env.types[b] for b in sorted(K['Bases'][t])) or root
+            env.types[t] = type(t, bs, dict(base_ns) if bs == root else {})
         env.comps = {}
         for c in sorted(K['Comps']):
             o = env.types[K['TypeOf'][c]]()
             o.name = c
-            if K['Decl'][c]:
+            if K['Decl'][c] and not controllers:
                 o.__events__ = {ev: ev for ev in sorted(K['Decl'][c])}
             env.comps[c] = o
+        # a holder class with one reference descriptor per component / processor type (mode 'ref')
+        env.holder_cls = None
 
         def p_on_add(self):
             env.log.append(('on_add', self.name, -1))
@@ -145,21 +158,21 @@ class WorldAdapter:
                 r = w.create_entity(*[env.comps[c] for c in cs], entity_id=None if eid == -1 else pyid(eid))
                 kind[:] = ['id', modelid(r), '-']
             elif name == 'AddComponent':
-                w.add_component(pyid(args[0]), env.comps[args[1]])
+                self._add_component(pyid(args[0]), env.comps[args[1]])
             elif name == 'RemoveComponent':
-                r = w.remove_component(pyid(args[0]), env.types[args[1]])
+                r = self._remove_component(pyid(args[0]), env.types[args[1]])
                 kind[:] = ['none', 0, '-'] if r is None else ['comp', 0, getattr(r, 'name', '?')]
             elif name == 'DeleteDeferred':
-                w.delete_entity(pyid(args[0]))
+                self._delete(pyid(args[0]))
             elif name == 'DeleteImmediate':
                 w.delete_entity(pyid(args[0]), immediate=True)
             elif name == 'AddProcessor':
                 if args[1] == 999:
-                    w.add_processor(env.procs[args[0]])
+                    self._add_processor(env.procs[args[0]])
                 else:
                     w.add_processor(env.procs[args[0]], args[1])
             elif name == 'RemoveProcessor':
-                r = w.remove_processor(env.ptypes[args[0]])
+                r = self._remove_processor(env.ptypes[args[0]])
                 kind[:] = ['none', 0, '-'] if r is None else ['proc', 0, getattr(r, 'name', '?')]
             elif name == 'Process':
                 w.process(args[0])
@@ -185,6 +198,97 @@ class WorldAdapter:
         env.fault = None
         return self.observe(tuple(kind), name, args, pre)
 
+    # -- C19: the same calls through the shorthands ------------------------------------------------
+    def _ctrl(self, pe):
+        return self.desper.controller(pe, self.env.w)
+
+    def _holder(self, pe, attr_type, kind):
+        d = self.desper
+        ref = d.ComponentReference(attr_type) if kind == 'c' else d.ProcessorReference(attr_type)
+        H = type('Holder', (), {'ref': ref, 'world': self.env.w, 'entity': pe})
+        return H()
+
+    def _add_component(self, pe, obj):
+        m, d = self.mode, self.desper
+        if m == 'ctrl':
+            self._ctrl(pe).add_component(obj)
+        elif m == 'func':
+            d.add_component(self._ctrl(pe), obj)
+        elif m == 'ref':
+            self._holder(pe, type(obj), 'c').ref = obj
+        else:
+            self.env.w.add_component(pe, obj)
+
+    def _remove_component(self, pe, cls):
+        m, d, w = self.mode, self.desper, self.env.w
+        if m == 'ctrl':
+            return self._ctrl(pe).remove_component(cls)
+        if m == 'func':
+            return d.remove_component(self._ctrl(pe), cls)
+        if m == 'ref':
+            before = list(w.get_components(pe))
+            del self._holder(pe, cls, 'c').ref
+            after = {id(x) for x in w.get_components(pe)}
+            gone = [x for x in before if id(x) not in after]
+            return gone[0] if gone else None
+        return w.remove_component(pe, cls)
+
+    def _delete(self, pe):
+        m, d = self.mode, self.desper
+        if m == 'ctrl':
+            self._ctrl(pe).delete()
+        elif m in ('func', 'ref'):
+            d.delete(self._ctrl(pe))
+        else:
+            self.env.w.delete_entity(pe)
+
+    def _add_processor(self, obj):
+        if self.mode == 'ref':
+            self._holder(1, type(obj), 'p').ref = obj
+        else:
+            self.env.w.add_processor(obj)
+
+    def _remove_processor(self, cls):
+        w = self.env.w
+        if self.mode == 'ref':
+            before = list(w.processors)
+            del self._holder(1, cls, 'p').ref
+            after = {id(x) for x in w.processors}
+            gone = [x for x in before if id(x) not in after]
+            return gone[0] if gone else None
+        return w.remove_processor(cls)
+
+    def _q_get_component(self, pe, cls):
+        m, d = self.mode, self.desper
+        if m == 'ctrl':
+            return self._ctrl(pe).get_component(cls)
+        if m == 'func':
+            return d.get_component(self._ctrl(pe), cls)
+        if m == 'ref':
+            return self._holder(pe, cls, 'c').ref
+        return self.env.w.get_component(pe, cls)
+
+    def _q_has(self, pe, cls):
+        m, d = self.mode, self.desper
+        if m == 'ctrl':
+            return self._ctrl(pe).has_component(cls)
+        if m in ('func', 'ref'):
+            return d.has_component(self._ctrl(pe), cls)
+        return self.env.w.has_component(pe, cls)
+
+    def _q_comps(self, pe):
+        m, d = self.mode, self.desper
+        if m == 'ctrl':
+            return self._ctrl(pe).get_components()
+        if m in ('func', 'ref'):
+            return d.get_components(self._ctrl(pe))
+        return self.env.w.get_components(pe)
+
+    def _q_get_processor(self, cls):
+        if self.mode == 'ref':
+            return self._holder(1, cls, 'p').ref
+        return self.env.w.get_processor(cls)
+
     def observe(self, ret, name, args, pre):
         env, K = self.env, self.K
         w = env.w
@@ -200,12 +304,12 @@ class WorldAdapter:
         gc_, has, comps, exists = {}, {}, {}, {}
         for e in self.all_ids:
             pe = pyid(e)
-            comps[e] = tuple(sorted(getattr(c, 'name', '?') for c in w.get_components(pe)))
+            comps[e] = tuple(sorted(getattr(c, 'name', '?') for c in self._q_comps(pe)))
             exists[e] = w.entity_exists(pe)
             for T, cls in env.types.items():
-                r = w.get_component(pe, cls)
+                r = self._q_get_component(pe, cls)
                 gc_[(e, T)] = None if r is None else getattr(r, 'name', '?')
-                has[(e, T)] = w.has_component(pe, cls)
+                has[(e, T)] = self._q_has(pe, cls)
         obs['get_component'] = gc_
         obs['has'] = has
         obs['comps'] = comps
@@ -223,11 +327,14 @@ class WorldAdapter:
                 hs.add(p)
         obs['is_handler'] = frozenset(hs)
         obs['self_handler'] = w.is_handler(w)
+        if self.controllers:
+            obs['ctrl_knows'] = {c: (modelid(o.entity) if o.entity is not None else None, o.world is w)
+                                 for c, o in env.comps.items()}
         # processors
         obs['processors'] = tuple(getattr(p, 'name', '?') for p in w.processors)
         gp = {}
         for T, cls in env.ptypes.items():
-            r = w.get_processor(cls)
+            r = self._q_get_processor(cls)
             gp[T] = None if r is None else getattr(r, 'name', '?')
         obs['get_processor'] = gp
         obs['pworld'] = {p: (o.world is w) for p, o in env.procs.items()}
@@ -290,6 +397,15 @@ class WorldAdapter:
         pp = fmap(post['pprio']) if K['Procs'] else {}
         exp['pprio'] = {p: pp[p] for p in K['Procs']}
         exp['log'] = self._log_pred(name, args, pre, post)
+        if self.controllers:
+            # an attached Controller whose on_add has been delivered (not pending in the queue) knows entity and world
+            pending = {(it[1], it[2]) for it in post['queue'] if it[0] == 'on_add'}
+            must = {}
+            for e, row in rows.items():
+                for c in row.values():
+                    if (c, e) not in pending:
+                        must[c] = (e, True)
+            exp['ctrl_knows'] = lambda o, must=must: all(o.get(c) == v for c, v in must.items())
         if hasattr(self.env.w, '_entities') and hasattr(self.env.w, '_components') and hasattr(self.env.w, '_dead_entities'):
             exp['wb_tables'] = (rows, {t: frozenset(s) for t, s in index.items()}, frozenset(dead))
             exp['wb_queue_len'] = len(post['queue'])
